@@ -740,7 +740,7 @@ func c11(c *fw.Ctx) {
 	c.Rule("symbols come from azref (harness/ref/azref), an encoder typed from ISO/IEC 24778 that works on TOKEN walks: a random walk over (latch table, action) emits characters of the five tables, every direct latch, P/S (incl. the two-character codes), U/S, B/S in short (1..31) and long (32..2078) form, and produces the expected bytes itself; then bit stuffing, RS check words over GF(64/256/1024/4096), GF(16) mode message, reference grid, layer spiral, bull's-eye and orientation marks. " +
 		"Level 1 (hl/*): HighLevelDecode(bits) == text for thousands of streams of 5..18000 bits. " +
 		"Level 2 (mx/*): all 36 sizes x fill modes (exactly/near 3 check words, 23%+3, half or more check words, 1-3 data words, random): Decoder.Decode(NewAztecDetectorResult(matrix, nil|corners, compact, dataWords, layers)) == text, clean and with k <= floor(check/2) replaced codewords (k = 1 / max / random; first / last / random positions; random / all-0 / all-1 values). " +
-		"Level 3 (img/*, c2px/*, f2px/*): the matrix painted into an image.Gray at 2..5 px/module with a 4-module white quiet zone, rotated by exact quarter turns, read with AztecReader.Decode(HybridBinarizer bitmap, nil): text and format AZTEC; damaged symbols at >= 3 px/module. A failure at any level is a violation; the compact / exactly 2 px / NotFound observation that decodes at matrix level and reads at 3 px has its own signature (open finding of the locating stage), its denominator is compact_2px_cases (every compact symbol image read at 2 px/module; a case goes on after such an observation so that numerator and denominator both count reads). distinct = distinct (size, text, scale, rotation, damage)")
+		"Level 3 (img/*, c2px/*, f2px/*): the matrix painted into an image.Gray at 2..5 px/module with a 4-module white quiet zone, rotated by exact quarter turns, read with AztecReader.Decode(HybridBinarizer bitmap, nil): text and format AZTEC; damaged symbols at >= 3 px/module. A failure at any level is a violation; the compact / exactly 2 px / NotFound observation that decodes at matrix level and reads at 3 px has its own signature (open finding of the locating stage), its denominator is compact_2px_cases (every compact symbol image read at 2 px/module; a case goes on after such an observation so that numerator and denominator both count reads). distinct = distinct (size, text, scale, rotation, damage) Mode-message sweep: one clean symbol for every announceable (size, data-codeword count) pair above 1024 data codewords and of the compact sizes (all pairs of all 36 sizes in the thorough tier, every 16th block of 24 below 1024 in quick), read as an image at 3 px/module in a random orientation.")
 	c.Assume("azref is the transcription of ISO/IEC 24778 (anchored in the start-up self-test on the size table, capacities, published mode-message, stuffing and high-level vectors); texts never contain FLG(n)/ECI, so the expected string is the bytes read as ISO-8859-1")
 	c.Assume("symbols carry at least 3 check codewords (the standard's floor); 'up to the correction capacity' is floor(check/2) replaced codewords, finder / mode message / reference grid undamaged")
 
@@ -797,6 +797,34 @@ func c11(c *fw.Ctx) {
 			c.Run(fmt.Sprintf("canvas/%d/%d", si, k), func(r *fw.Rec) { c11CanvasCase(r, s) })
 		}
 	}
+	// mode-message sweep: every announceable (size, data codewords) pair above 1024 data words
+	// (the 11-bit field's top bit) and of the compact sizes; the others stratified
+	for _, s := range azref.AllSpecs() {
+		s := s
+		T := s.TotalWords() - 3
+		if T > s.MaxDataWords() {
+			T = s.MaxDataWords()
+		}
+		step := 1
+		if !s.Compact && !c.Quick() {
+			step = 1
+		} else if !s.Compact {
+			step = 16
+		}
+		for lo := 1; lo <= T; lo += 24 {
+			lo := lo
+			hi := lo + 24
+			if hi > T+1 {
+				hi = T + 1
+			}
+			if !s.Compact && lo+24 <= 1024 && (lo/24)%step != 0 {
+				continue
+			}
+			c.Run(fmt.Sprintf("modesweep/%s/%d", azSpecName(s), lo), func(r *fw.Rec) { c11ModeSweep(r, s, lo, hi) })
+		}
+	}
+	c.Floor("mode_sweep_pairs_read", 1500)
+	c.Floor("mode_sweep_pairs_read_more_than_1024_data_words", 1000)
 	c.Floor("portrait_canvas_reads", 50)
 	c.Floor("landscape_canvas_reads", 50)
 	nreuse := c.Pick(40, 600)
